@@ -1434,6 +1434,9 @@ class ContactHandler(Messenger, dbus.service.Object):
     def close(self):
         ''' Close the TCP connection immediately. '''
         if tuple(self.locations):
+            # bundles accepted but never started are reported while the
+            # object can still signal
+            self._tx_cancel_pend_start()
             self.remove_from_connection()
 
         Messenger.close(self)
